@@ -167,3 +167,5 @@ REG.note('C10', 'assumptions', 'FFDH: prime > 2 (constructor enforces 1 < genera
 REG.note('C10', 'not_built', 'ECDHKeyExchange.calc_shared_key NIST-curve branch (on-curve check is ecdsa.ellipticcurve.'
                              'AbstractPoint.from_bytes; AssertionError -> TLSIllegalParameterException mapping not proved)')
 REG.note('C10', 'not_built', 'both sides derive the same secret (pow_mul_comm over ZMod p; needs an algebra lemma outside SMT)')
+REG.xchecks.append({'prop': 'C10', 'module': 'specs.ecdh_points', 'name': 'ecdh_point_encodings',
+                    'function': 'tlslite/keyexchange.py:ECDHKeyExchange.calc_shared_key'})
